@@ -506,12 +506,17 @@ def _bounds(fn, du, cfg, local, at_bb, depth=0):
             dpl = mir.op_place(t["discr"])
             if dpl is None or dpl["l"] != s["lhs"]["l"]:
                 continue
-            if not cfg.dominates(t["otherwise"], at_bb):
+            false_t = dict((v, x) for v, x in t["targets"]).get(0)
+            on_true = t["otherwise"] is not None and t["otherwise"] != false_t and cfg.dominates(t["otherwise"], at_bb)
+            on_false = false_t is not None and false_t != t["otherwise"] and cfg.dominates(false_t, at_bb)
+            if on_true == on_false:
                 continue
             c = ca if ca is not None else cb
             op = r2["op"]
             if ca is not None:   # c OP x
                 op = {"Le": "Ge", "Lt": "Gt", "Ge": "Le", "Gt": "Lt"}[op]
+            if on_false:         # the else-branch of `if x OP c`: the negated comparison holds
+                op = {"Le": "Gt", "Lt": "Ge", "Ge": "Lt", "Gt": "Le"}[op]
             if op == "Le":
                 hi = c if hi is None else min(hi, c)
             elif op == "Lt":
